@@ -1,7 +1,7 @@
 (** C14 - resize pre-flight: short files zero-extended; any over-long file aborts first.  Statements only.
     The pre-flight is evaluated against an arbitrary answer function [ans] for the probes. *)
 From TB Require Import Base Decimal BencodeModel TorrentModel TorrentProofs PathModel FsModel SolverModel FinderModel RunModel
-                       SolverProofs RunProofs FsProofs FaultProofs PreludeProofs TableProofs Generated GeneratedObligations SystemModel SystemProofs GlueProofs PropertyLemmas.
+                       SolverProofs RunProofs FsProofs FaultProofs PreludeProofs TableProofs Generated GeneratedObligations SystemModel SystemProofs GlueProofs PropertyLemmas SearchProofs FinderProofs SystemModel SystemProofs EstablishProofs CompleteProofs RerunProofs AvailProofs.
 Local Open Scope N_scope.
 
 (** If any existing non-padding export file is longer than declared - wherever it sits in the list -
@@ -49,6 +49,19 @@ Theorem C14_prelude_only_sets_declared_lengths ans mutok scans export rz es k o 
   exists e, In e es /\ e_pad e = false /\ o = SetLen (e_target e) (e_len e).
 Proof. exact (prelude_ops_shape ans mutok scans export rz es k o). Qed.
 
+(** "... and then counts as a source": after the pre-flight's [SetLen target declared] on a shorter
+    export file, the bytes of a segment that were there are still there and the file has exactly the
+    declared length, so the segment is [present] (AvailProofs) at the file's own export location in
+    the state the scanning starts from - and C02_present_means_recovered applies to it. *)
+Theorem C14_extended_file_counts_as_source content f under es0 e s i f' :
+  In e es0 -> e_pad e = false -> e_len e = e_len (ps_entry s) ->
+  fs_lookup f (e_target e) = Some (NFile i) -> (length (fs_content f i) <= N.to_nat (e_len e))%nat ->
+  (N.to_nat (ps_off s) + N.to_nat (ps_len s) <= length (fs_content f i))%nat ->
+  firstn (N.to_nat (ps_len s)) (skipn (N.to_nat (ps_off s)) (fs_content f i)) = seg_bytes content s ->
+  apply_op f (SetLen (e_target e) (e_len e)) = (f', true) ->
+  present content f' under es0 s (e_target e) i.
+Proof. exact (extended_export_file_is_present content f under es0 e s i f'). Qed.
+
 Print Assumptions C14_overlong_aborts_before_any_change.
 Print Assumptions C14_extends_exactly_the_shorter_files.
 Print Assumptions C14_extension_keeps_bytes.
@@ -56,3 +69,4 @@ Print Assumptions C14_no_flag_no_prelude_change.
 Print Assumptions C14_open_modes.
 Print Assumptions C14_whole_start_safe.
 Print Assumptions C14_prelude_only_sets_declared_lengths.
+Print Assumptions C14_extended_file_counts_as_source.
